@@ -33,8 +33,24 @@ package log
 //@   on return assert exact-record-gives-yes: hasprefix(line, text[0] + ":") && forall(k, 1, len(text), contains(substr(line, len(text[0]), len(line)), text[k])) ==> r0
 //@   loop 0 invariant -1 <= rangeindex && forall(k, 1, rangeindex + 2, contains(substr(line, len(text[0]), len(line)), text[k]))
 
-//@ func (*rollingFile).search trusted
-//@   modifies nothing
+// search walks exactly the window it was given, line by line
+//@ func (*rollingFile).search
+//@   on return assert searches-the-window: (old(len(text)) == 0 ==> !result) && (old(len(text)) > 0 ==> called((*rollingFile).eachLine) && result == lastret((*rollingFile).eachLine, 0) && lastarg((*rollingFile).eachLine, 0) == rf && lastarg((*rollingFile).eachLine, 2) == start && lastarg((*rollingFile).eachLine, 3) == stop)
+//@   modifies everything
+
+//@ func (*rollingFile).eachLine
+//@   on return assert walks-the-window: called((*rollingFile).each) && result == lastret((*rollingFile).each, 0) && lastarg((*rollingFile).each, 0) == rf && lastarg((*rollingFile).each, 2) == start && lastarg((*rollingFile).each, 3) == stop
+//@   modifies everything
+
+// the per-day-file handler of eachLine: a day file that can be opened is read line by line to its end
+// unless the line handler says stop - no other reason ends it early (day granularity: the records of
+// a day the window touches all count, whenever they were written)
+//@ func (*rollingFile).eachLine$1
+//@   on return assert opened-file-is-read-to-the-end: called(os.Open) && lastarg(os.Open, 0) == path && (lastret(os.Open, 1) == nil && !r0 ==> called((*bufio.Scanner).Scan) && !lastret((*bufio.Scanner).Scan, 0))
+//@   on return assert stops-only-when-the-line-handler-says-so: r0 ==> called(handler) && lastret(handler, 0) && lastarg(handler, 0) == lastret((*bufio.Scanner).Text, 0)
+//@   loop 0 backedge assert every-line-is-handed-over: called(handler) && !lastret(handler, 0) && lastarg(handler, 0) == lastret((*bufio.Scanner).Text, 0)
+//@   before call (*bufio.Scanner).Scan assert scans-the-opened-file: lastarg(bufio.NewScanner, 0) == lastret(os.Open, 0)
+//@   modifies everything
 
 //@ func (*FileIO).wasWritten
 //@   before call (*rollingFile).search assert looks-up-name-and-hash: arg1[0] == relPath && (hash == "" ==> len(arg1) == 1) && (hash != "" ==> len(arg1) == 2 && arg1[1] == ":" + hash + ":") && arg2 == after && arg3 == before && arg0 == f.logger
